@@ -114,6 +114,14 @@ func tryFastCompare(expression string) *fastCompare {
 		if err != nil {
 			return nil
 		}
+		// expr-lang compares an integer literal with an integer value as integers. A float64
+		// represents integers exactly only up to 2^53, so larger integer literals take the
+		// general path (toFloat64Fast does the same for large integer values).
+		if !strings.Contains(m[3], ".") {
+			if i, err := strconv.ParseInt(m[3], 10, 64); err != nil || i > maxExactFloatInt || i < -maxExactFloatInt {
+				return nil
+			}
+		}
 		return &fastCompare{field: m[1], op: m[2], numLit: n}
 	}
 	if m := fastFieldOpStr.FindStringSubmatch(expression); m != nil {
@@ -234,6 +242,14 @@ func tryFastCompound(expression string) *fastCompound {
 	return &fastCompound{op: op, parts: compares}
 }
 
+// maxExactFloatInt is 2^53: every integer of absolute value up to 2^53 is exactly
+// representable as a float64, so comparing such integers as float64 equals comparing
+// them as integers.
+const maxExactFloatInt = 1 << 53
+
+// toFloat64Fast converts the numeric types handled by the fast path. Integer values beyond
+// +-2^53 are not handled (ok=false): converting them to float64 rounds, which would change
+// the result of the comparison with respect to expr-lang's integer comparison.
 func toFloat64Fast(v any) (float64, bool) {
 	switch x := v.(type) {
 	case float64:
@@ -241,14 +257,26 @@ func toFloat64Fast(v any) (float64, bool) {
 	case float32:
 		return float64(x), true
 	case int:
+		if int64(x) > maxExactFloatInt || int64(x) < -maxExactFloatInt {
+			return 0, false
+		}
 		return float64(x), true
 	case int64:
+		if x > maxExactFloatInt || x < -maxExactFloatInt {
+			return 0, false
+		}
 		return float64(x), true
 	case int32:
 		return float64(x), true
 	case uint:
+		if uint64(x) > maxExactFloatInt {
+			return 0, false
+		}
 		return float64(x), true
 	case uint64:
+		if x > maxExactFloatInt {
+			return 0, false
+		}
 		return float64(x), true
 	case uint32:
 		return float64(x), true
